@@ -14,6 +14,8 @@ PROPERTIES = {
         "units": ["c05_limiters"],
         "level": "proof",
         "explanation": "RateLimiter::{new,allow} and AtomicPosition::allow extracted from /repo/src and verified by Verus against the token-bucket step relation; window (20 + R*T + 1) and staleness bounds proved as lemmas by induction over call traces whose step relation is the conjunction of the code contracts.",
+        "level_text": "Deductive proof (Verus/Z3), for every limiter state and request time, that RateLimiter::new/allow and AtomicPosition::allow as they stand in /repo/src satisfy the token-bucket step relation taken from the property text; the frame bound 20 + R*T + 1 and the staleness bound are proved once and for all as lemmas by induction over arbitrary call histories whose step relation is exactly those contracts. No bound on history length, times or counters.",
+        "level_note": "Assumed: std::time modelled as natural-number nanoseconds (differences within Duration::MAX, request times non-decreasing), atomics as sequential cells, Instant::now() arbitrary. Not covered by a contract yet: the three-line glue in ProgressBar::{inc,dec,set_position} and ProgressDrawTarget::drawable that routes requests through the limiters (see DESIGN.md).",
         "assumptions": [
             "machine time: Instant/Duration modelled as unbounded natural nanoseconds, differences bounded by Duration::MAX",
             "request times are non-decreasing along a history (Instant::now() is monotone)",
@@ -27,3 +29,8 @@ WITNESS = {
     "c05_limiters/RateLimiter::new": ["rl_new"],
     "c05_limiters/AtomicPosition::allow": ["pos_allow"],
 }
+
+NOT_APPLICABLE = [
+    {"property_id": "C08", "reason": "quantifies over thread schedules and liveness (no deadlock, ticker thread stops promptly); Kani has no threads, Verus cannot reason about std Mutex/RwLock/Condvar/thread::spawn, and per-call contracts cannot express 'cannot block forever' (DESIGN.md section 6)"},
+]
+NOTES = "Every check: ./check <id> --tier quick|thorough; exit 0 held / 1 VIOLATION / 2 undecided (drift, unsupported construct, resource limit, vacuity canary - never an alarm). Known findings: /verif/known_findings.json."
